@@ -170,6 +170,37 @@ func TestVerifC17(t *testing.T) {
 			}
 		}
 	}
+	// thresholds just below and just above each password's own rating: the comparison is exact, not rounded
+	for i, pw := range c17Passwords(rng, 6) {
+		if len(pw) > 64 {
+			continue
+		}
+		m := zxcvbn.PasswordStrength(pw, []string{"alice", "whawty"})
+		type edge struct {
+			kind string
+			v    float64
+		}
+		for _, e := range []edge{{"entropy", m.Entropy}, {"time", m.CrackTime}} {
+			if e.v < 1 || e.v > 1e15 || e.v == math.Floor(e.v) {
+				continue
+			}
+			for _, thr := range []float64{math.Floor(e.v), math.Ceil(e.v)} {
+				cond := fmt.Sprintf("%s >= %.0f", e.kind, thr)
+				p, err := NewPasswordPolicy("zxcvbn", cond)
+				if err != nil {
+					R.Violate("c17:valid-condition-refused", cond+": "+err.Error(), fmt.Sprintf("edge/%d", i), nil)
+					continue
+				}
+				got, perr := p.Check(pw, "alice")
+				want := e.v >= thr
+				R.Case("edge:"+cond+"|"+pw, true)
+				R.Count("rating_edge_probes", 1)
+				if perr != nil || got != want {
+					R.Violate("c17:condition-compared-inexactly:"+e.kind, fmt.Sprintf("password %s is rated %s=%.4f; under %q the policy says %v, the exact comparison says %v", vr.Q(pw), e.kind, e.v, cond, got, want), fmt.Sprintf("edge/%d", i), map[string]any{"password": vr.Q(pw), "rating": e.v, "condition": cond})
+				}
+			}
+		}
+	}
 	for _, ty := range []string{"zxcvbn2", "ZXCVBN", "none", "null", "regex", " zxcvbn", "zxcvbn "} {
 		if _, err := NewPasswordPolicy(ty, "score >= 3"); err == nil {
 			R.Violate("c17:unknown-policy-type-accepted", "type "+vr.Q(ty), "type/"+ty, nil)
